@@ -18,7 +18,7 @@ import aave_lib as A
 from common import Ctx, driver_json, fmt
 
 PROPERTY = "C13"
-LEAN_MODULES = ["Proofs.C13", "Proofs.C13.Update"]
+LEAN_MODULES = ["Proofs.C13", "Proofs.C13.Update", "Proofs.C13.UpdateRound35"]
 DRIVERS = ["driver_aave"]
 RULE = ("random operation sequences (2-4 tokens, 27-digit indices, prices over 9 decades, risk tables with zero LTV / non-collateral / "
         "non-borrowable tokens) interleaving every public read with supply/withdraw/borrow/repay(cash|collateral)/change_collateral/"
